@@ -91,7 +91,8 @@ func genServer(g *genCtx) {
 			}
 		}
 		grpcOn := r.intn(2)
-		g.op("serve http=%s https=%s mw=%s grpc=%d", httpR, httpsR, mw, grpcOn)
+		// bundles=2: the same middleware list (one slice) is bundled twice and the second bundle is used
+		g.op("serve http=%s https=%s mw=%s grpc=%d bundles=%d", httpR, httpsR, mw, grpcOn, 1+t%2)
 		// every registered route once, plus a grid of other method/path combinations
 		reqs := []string{}
 		for _, spec := range []struct{ l, r string }{{"http", httpR}, {"https", httpsR}} {
@@ -194,9 +195,32 @@ type liveServer struct {
 	client    *http.Client
 	gate      chan struct{} // handlers of path /block wait on it
 	entered   chan struct{}
+	ggate     chan struct{} // gRPC calls with name "block" wait on it
+	gentered  chan struct{}
 	dir       string
 	cancelRun context.CancelFunc
 }
+
+// gateHello is the HelloService of the lifecycle scenarios: a call with name "block" stays in flight until released.
+type gateHello struct {
+	proto.UnimplementedHelloServiceServer
+	ls *liveServer
+}
+
+func (h *gateHello) SayHello(ctx context.Context, req *proto.HelloRequest) (*proto.HelloReply, error) {
+	if req.GetName() == "block" {
+		h.ls.gentered <- struct{}{}
+		select {
+		case <-h.ls.ggate:
+		case <-ctx.Done():
+			return nil, ctx.Err()
+		}
+	}
+	return &proto.HelloReply{Message: "Hello, " + req.GetName()}, nil
+}
+
+// bundleTwice is set per `serve` operation (each case runs in its own process).
+var bundleTwice bool
 
 func (ls *liveServer) handler(id int) http.HandlerFunc {
 	return func(w http.ResponseWriter, r *http.Request) {
@@ -211,7 +235,25 @@ func (ls *liveServer) handler(id int) http.HandlerFunc {
 			<-ls.gate
 		}
 		w.Header().Set("X-H", fmt.Sprint(id))
-		w.WriteHeader(210 + id)
+		// the ways a handler may legitimately answer; the client must see status 210+id and the same body in every one
+		switch id % 4 {
+		case 1:
+			// an informational response first (103 Early Hints), then the final status
+			w.Header().Set("Link", "</s.css>; rel=preload")
+			w.WriteHeader(http.StatusEarlyHints)
+			w.WriteHeader(210 + id)
+		case 2:
+			// a superfluous second WriteHeader is ignored by net/http
+			w.WriteHeader(210 + id)
+			w.WriteHeader(http.StatusInternalServerError)
+		case 3:
+			w.WriteHeader(210 + id)
+			if fl, ok := w.(http.Flusher); ok {
+				fl.Flush()
+			}
+		default:
+			w.WriteHeader(210 + id)
+		}
 		w.Write([]byte(fmt.Sprintf("h%d:", id)))
 		w.Write(body)
 	}
@@ -241,7 +283,7 @@ func (ls *liveServer) recording(name string) httpMiddleware.HttpHandlerMiddlewar
 }
 
 func startServer(httpR, httpsR, mw string, grpcOn bool, blockRoutes bool) (*liveServer, error) {
-	ls := &liveServer{ports: map[string]int{}, log: &recLog{lines: map[string][]string{}, saw: map[string]string{}}, gate: make(chan struct{}), entered: make(chan struct{}, 64)}
+	ls := &liveServer{ports: map[string]int{}, log: &recLog{lines: map[string][]string{}, saw: map[string]string{}}, gate: make(chan struct{}), entered: make(chan struct{}, 64), ggate: make(chan struct{}), gentered: make(chan struct{}, 64)}
 	quiet := slog.New(slog.NewTextHandler(io.Discard, nil))
 	b := serverConfig.BuildServerConfig().WithLogger(quiet)
 	addRoutes := func(spec string, add func(m, p string, h http.HandlerFunc)) {
@@ -273,7 +315,11 @@ func startServer(httpR, httpsR, mw string, grpcOn bool, blockRoutes bool) (*live
 					}
 				}
 			}
-			hb.UsingMiddleWare(httpMiddleware.BundleMiddleware(chain...))
+			bundle := httpMiddleware.BundleMiddleware(chain...)
+			if bundleTwice {
+				bundle = httpMiddleware.BundleMiddleware(chain...)
+			}
+			hb.UsingMiddleWare(bundle)
 		}
 		b.WithHttpServiceConfig(hb)
 	}
@@ -294,7 +340,11 @@ func startServer(httpR, httpsR, mw string, grpcOn bool, blockRoutes bool) (*live
 	}
 	if grpcOn {
 		ls.ports["grpc"] = freePort()
-		gb := serverConfig.BuildGrpcServerConfig().WithPort(fmt.Sprint(ls.ports["grpc"])).RegisterImplementation(&proto.HelloService_ServiceDesc, &grpcService.HelloService{})
+		var grpcImpl any = &grpcService.HelloService{}
+		if blockRoutes {
+			grpcImpl = &gateHello{ls: ls}
+		}
+		gb := serverConfig.BuildGrpcServerConfig().WithPort(fmt.Sprint(ls.ports["grpc"])).RegisterImplementation(&proto.HelloService_ServiceDesc, grpcImpl)
 		b.WithGrpcServiceConfig(gb)
 	}
 	ls.wg = &sync.WaitGroup{}
@@ -372,7 +422,11 @@ func orDash(s string) string {
 }
 
 func (ls *liveServer) grpcCall(name string) string {
-	ctx, cancel := context.WithTimeout(context.Background(), 5*time.Second)
+	to := 5 * time.Second
+	if name == "block" {
+		to = 40 * time.Second // an in-flight call must not end by the client giving up
+	}
+	ctx, cancel := context.WithTimeout(context.Background(), to)
 	defer cancel()
 	conn, err := grpc.NewClient(fmt.Sprintf("127.0.0.1:%d", ls.ports["grpc"]), grpc.WithTransportCredentials(insecure.NewCredentials()))
 	if err != nil {
@@ -453,6 +507,7 @@ func execServer(x *execCtx) {
 			case "serve":
 				cleanup()
 				var err error
+				bundleTwice = f["bundles"] == "2"
 				ls, err = startServer(f["http"], f["https"], f["mw"], f["grpc"] == "1", false)
 				if err != nil {
 					return "error=" + err.Error()
@@ -560,6 +615,21 @@ func runScenario(listeners string, inflight int, ample, ready bool) string {
 			}
 		}
 	}
+	// in-flight gRPC calls (held by the gated service until released)
+	gres := make(chan string, inflight)
+	gstarted := 0
+	if has["grpc"] && ready {
+		for i := 0; i < inflight; i++ {
+			go func() { gres <- ls.grpcCall("block") }()
+		}
+		for i := 0; i < inflight; i++ {
+			select {
+			case <-ls.gentered:
+				gstarted++
+			case <-time.After(5 * time.Second):
+			}
+		}
+	}
 	stopDone := make(chan [2]int, 1)
 	go func() { r, e := ls.stop(ample); stopDone <- [2]int{r, e} }()
 	time.Sleep(30 * time.Millisecond) // Stop is under way (blocked on the in-flight requests with an ample context)
@@ -571,6 +641,28 @@ func runScenario(listeners string, inflight int, ample, ready bool) string {
 	default:
 	}
 	close(ls.gate) // let the handlers finish
+	// gRPC: with an ample context the calls are released and Stop waits for them; with an expired context Stop has to
+	// cut them off by itself — they stay held until Stop has returned (or 5 s have passed)
+	prompt := 1
+	if !ample && gstarted > 0 {
+		select {
+		case v := <-stopDone:
+			stopDone <- v
+		case <-time.After(5 * time.Second):
+			prompt = 0
+		}
+	}
+	close(ls.ggate)
+	gdone := 0
+	for i := 0; i < gstarted; i++ {
+		select {
+		case r := <-gres:
+			if r == "reply=Hello,_block" {
+				gdone++
+			}
+		case <-time.After(10 * time.Second):
+		}
+	}
 	completed := 0
 	for i := 0; i < started; i++ {
 		select {
@@ -597,6 +689,6 @@ func runScenario(listeners string, inflight int, ample, ready bool) string {
 	if !ready {
 		u = "skipped"
 	}
-	return fmt.Sprintf("startret=%d reachable=%s inflightstarted=%d completed=%d stopearly=%d stopret=%d stoperr=%d wgreleased=%d portsfree=%s",
-		startRet, u, started, completed, early*b2i(started > 0), sr[0], sr[1], released, ls.portsFree())
+	return fmt.Sprintf("startret=%d reachable=%s inflightstarted=%d completed=%d stopearly=%d stopret=%d stoperr=%d wgreleased=%d portsfree=%s grpcinflight=%d grpcdone=%d stopprompt=%d",
+		startRet, u, started, completed, early*b2i(started > 0), sr[0], sr[1], released, ls.portsFree(), gstarted, gdone, prompt)
 }
